@@ -1,7 +1,380 @@
-import BacVerif.Model.Addr
+/-
+  C18 — Addresses parse, print, compare and hash coherently in every notation.
+
+  Property text → formal statement (model: Model/Addr.lean, after the repairs
+  fixes/C18-*.patch)
+  * "Every address notation the library accepts (station numbers, net:station,
+    net:*, *, *:*, dotted IPv4 with optional mask and port, hex and X'' octet
+    strings with optional network, address/port tuples, raw octets) yields the
+    address type, network number, station octets … that the notation denotes"
+        → `parse_fields_*` : for ANY digit string / hex string (not just printed
+          ones): `parse_fields_star`, `_global`, `_station`, `_net_station`,
+          `_net_broadcast`, `_hex`, `_net_hex`, `_xhex`, `_net_xhex`, `_ip`, `_net_ip`;
+          `fields_int`, `fields_bytes`, `fields_tuple_int`, `fields_tuple_str`,
+          `fields_ctor2`, `fields_typed`
+  * "and – for IP forms – the subnet, host and directed-broadcast values"
+        → `parse_fields_ip` gives the helper fields as the code's `&`,`|`,`~`
+          expressions; `ip_arith` / `ip_values` (from Lemmas/AddrIP.lean: `maskOf_eq`,
+          `hostOf_eq`, `subnetOf_eq`, `bcastOf_eq`, `ip_split`) turn them into
+          `2^32-2^(32-n)`, `ip - ip % 2^(32-n)`, `ip % 2^(32-n)`, `subnet + 2^(32-n) - 1`
+          for every 32-bit address and all 33 mask lengths
+  * "network numbers above 65534 and station numbers above 255 are refused"
+        → `range_refused_station`, `range_refused_net_station`, `range_refused_net`,
+          `range_refused_mask`, `range_refused_port`, `range_refused_int`,
+          `range_refused_ctor2`, `range_refused_typed`, and in closed form
+          `parse_wf` : whatever `parse` accepts is well formed (net ≤ 65534, ≥ 1 octet)
+  * "Printing an address and parsing the text gives an equal address"
+        → `print_parse` (for every well-formed address, any octet-string length ≥ 1)
+          and `parse_print_parse` (for every text the parser accepts)
+  * "equality is an equivalence relation"       → `eq_refl`, `eq_symm`, `eq_trans`, `eq_iff_key`
+  * "equal addresses hash equally so they address the same entry"
+        → `eq_hash` (and `hash_eq`: the hashed key determines equality, so distinct
+          addresses are distinct keys)
+  Outside the claim: route suffixes, non-ASCII digits, interface names.
+-/
+import BacVerif.Lemmas.AddrParse
+import BacVerif.Lemmas.AddrIP
 namespace BacVerif.C18
 open BacVerif BacVerif.Addr
 
-theorem placeholder : True := trivial
+deriving instance DecidableEq for Except
+
+/-! ## parse_fields: what each notation yields -/
+
+theorem parse_fields_star : parse ['*'] = .ok ⟨.localBroadcast, none, none, none⟩ := by decide
+
+theorem parse_fields_global : parse ['*', ':', '*'] = .ok ⟨.globalBroadcast, none, none, none⟩ := by
+  decide
+
+/-- station number: any non-empty digit string of value ≤ 255 -/
+theorem parse_fields_station (ds : List Char) (hne : ds ≠ []) (hd : allDigits ds = true)
+    (hr : decVal ds ≤ 255) :
+    parse ds = .ok ⟨.localStation, none, some [UInt8.ofNat (decVal ds)], none⟩ := by
+  have hs : ds ≠ ['*'] := by intro e; subst e; revert hd; decide
+  have h1 : ∀ r, ds ≠ '*' :: ':' :: r := by
+    intro r e; subst e; exact absurd (head_isDig hd) (by simp [isDig_star])
+  rw [parse_plain ds (.dec ds) hs (noNl_of_allDigits ds hd) (matchBody_dec ds hne hd) h1
+    (by simp [digits_self ds hd])]
+  have : ¬ decVal ds ≥ 256 := by omega
+  simp [interp, interpPfx, interpBody, this]
+
+example : parse "254".toList = .ok ⟨.localStation, none, some [254], none⟩ := by decide
+example : parse "007".toList = .ok ⟨.localStation, none, some [7], none⟩ := by decide
+
+/-- `net:station` -/
+theorem parse_fields_net_station (ns ds : List Char) (hn : ns ≠ [] ∧ allDigits ns = true)
+    (hd : ds ≠ [] ∧ allDigits ds = true) (hnr : decVal ns ≤ 65534) (hr : decVal ds ≤ 255) :
+    parse (ns ++ ':' :: ds) =
+      .ok ⟨.remoteStation, some (decVal ns), some [UInt8.ofNat (decVal ds)], none⟩ := by
+  rw [parse_net ns ds (.dec ds) hn.1 hn.2 (noNl_of_allDigits ds hd.2) (matchBody_dec ds hd.1 hd.2)]
+  have h1 : ¬ decVal ns ≥ 65535 := by omega
+  have h2 : ¬ decVal ds ≥ 256 := by omega
+  simp [interp, interpPfx, interpBody, h1, h2]
+
+example : parse "65534:255".toList = .ok ⟨.remoteStation, some 65534, some [255], none⟩ := by decide
+
+/-- `net:*` -/
+theorem parse_fields_net_broadcast (ns : List Char) (hn : ns ≠ [] ∧ allDigits ns = true)
+    (hnr : decVal ns ≤ 65534) :
+    parse (ns ++ [':', '*']) = .ok ⟨.remoteBroadcast, some (decVal ns), none, none⟩ := by
+  rw [parse_net ns ['*'] .star hn.1 hn.2 (by decide) matchBody_star]
+  have h1 : ¬ decVal ns ≥ 65535 := by omega
+  simp [interp, interpPfx, interpBody, h1]
+
+example : parse "65534:*".toList = .ok ⟨.remoteBroadcast, some 65534, none, none⟩ := by decide
+
+/-- `0x` hex octet string (either case), one or more octets -/
+theorem parse_fields_hex (hs : List Char) (bs : Bytes) (h : hexBytes hs = some bs) (hne : bs ≠ []) :
+    parse ('0' :: 'x' :: hs) = .ok ⟨.localStation, none, some bs, none⟩ := by
+  rw [parse_plain _ (.hex bs) (by simp) (by simp [noNl_cons, noNl_of_hexBytes hs bs h])
+    (matchBody_hex hs bs h hne) (by simp) (by simp [digits_0x])]
+  simp [interp, interpPfx, interpBody]
+
+example : parse "0xAbcd".toList = .ok ⟨.localStation, none, some [0xAB, 0xCD], none⟩ := by decide
+
+/-- `net:0x…` -/
+theorem parse_fields_net_hex (ns hs : List Char) (bs : Bytes) (hn : ns ≠ [] ∧ allDigits ns = true)
+    (hnr : decVal ns ≤ 65534) (h : hexBytes hs = some bs) (hne : bs ≠ []) :
+    parse (ns ++ ':' :: '0' :: 'x' :: hs) = .ok ⟨.remoteStation, some (decVal ns), some bs, none⟩ := by
+  rw [parse_net ns _ (.hex bs) hn.1 hn.2 (by simp [noNl_cons, noNl_of_hexBytes hs bs h])
+    (matchBody_hex hs bs h hne)]
+  have h1 : ¬ decVal ns ≥ 65535 := by omega
+  simp [interp, interpPfx, interpBody, h1]
+
+example : parse "12:0x0102030405".toList =
+    .ok ⟨.remoteStation, some 12, some [1, 2, 3, 4, 5], none⟩ := by decide
+
+/-! ### X'..' (falls through `combined_pattern`) -/
+
+theorem hexUntilQuote_of_hexBytes (hs : List Char) :
+    ∀ bs : Bytes, hexBytes hs = some bs → hexUntilQuote (hs ++ ['\'']) = some bs := by
+  fun_induction hexBytes hs with
+  | case1 => intro bs h; simp at h; subst h; decide
+  | case2 c => intro bs h; simp at h
+  | case3 a b r x y bs' hr hy hx ih =>
+    intro bs h
+    simp at h; subst h
+    simp [hexUntilQuote, hx, hy, ih bs' hr]
+  | case4 => intro bs h; simp at h
+
+theorem hexBytes_two (hs : List Char) (bs : Bytes) (h : hexBytes hs = some bs) (hne : bs ≠ []) :
+    ∃ a b r, hs = a :: b :: r ∧ (hexVal a).isSome = true := by
+  match hs, h with
+  | [], h => simp [hexBytes] at h; exact absurd h hne
+  | [_], h => simp [hexBytes] at h
+  | a :: b :: r, h =>
+    refine ⟨a, b, r, rfl, ?_⟩
+    simp only [hexBytes] at h
+    split at h <;> simp_all
+
+theorem hexVal_ne_colon (c : Char) (h : (hexVal c).isSome = true) : c ≠ ':' := by
+  intro e; subst e; revert h; decide
+
+theorem noNl_nil : noNl [] = true := rfl
+
+theorem hexBytes_bad_head (c d : Char) (hc : hexVal c = none) : hexBytes [c, d] = none := by
+  simp [hexBytes, hc]
+
+/-- a group that does not start with a hex digit is no ethernet group -/
+theorem ethGroups_bad_head (n : Nat) (c : Char) (r : List Char) (hc : hexVal c = none) :
+    ethGroups n (c :: r) = none := by
+  cases n with
+  | zero =>
+    unfold ethGroups
+    split
+    · rename_i a b heq; simp at heq; obtain ⟨rfl, _⟩ := heq; exact hexBytes_bad_head _ _ hc
+    · rfl
+  | succ n =>
+    unfold ethGroups
+    split
+    · rename_i a b r' heq; simp at heq; obtain ⟨rfl, _⟩ := heq
+      simp [hexBytes_bad_head _ _ hc]
+    · rfl
+
+theorem hexVal_X : hexVal 'X' = none := by decide
+
+theorem parse_fields_xhex (hs : List Char) (bs : Bytes) (h : hexBytes hs = some bs) (hne : bs ≠ []) :
+    parse ('X' :: '\'' :: (hs ++ ['\''])) = .ok ⟨.localStation, none, some bs, none⟩ := by
+  have hq := hexUntilQuote_of_hexBytes _ bs h
+  have hnl := noNl_of_hexBytes _ bs h
+  have hstrip : stripNl ('X' :: '\'' :: (hs ++ ['\''])) = 'X' :: '\'' :: (hs ++ ['\'']) := by
+    apply stripNl_id
+    simp [noNl_cons, noNl_append, noNl_nil, hnl]
+  have hcomb : matchCombined ('X' :: '\'' :: (hs ++ ['\''])) = none := by
+    simp [matchCombined, matchBody, digits, isDig_X]
+  have heth : matchEthernet ('X' :: '\'' :: (hs ++ ['\''])) = none :=
+    ethGroups_bad_head 5 'X' _ hexVal_X
+  cases bs with
+  | nil => exact absurd rfl hne
+  | cons b0 bt =>
+    simp only [parse, hstrip, hcomb, heth]
+    simp [matchXHex, hq, mkLocalStation]
+
+example : parse "X'0aFF'".toList = .ok ⟨.localStation, none, some [10, 255], none⟩ := by decide
+
+theorem parse_fields_net_xhex (ns hs : List Char) (bs : Bytes) (hn : ns ≠ [] ∧ allDigits ns = true)
+    (hnr : decVal ns ≤ 65534) (h : hexBytes hs = some bs) (hne : bs ≠ []) :
+    parse (ns ++ ':' :: 'X' :: '\'' :: (hs ++ ['\''])) =
+      .ok ⟨.remoteStation, some (decVal ns), some bs, none⟩ := by
+  have hq := hexUntilQuote_of_hexBytes _ bs h
+  have hnl := noNl_of_hexBytes _ bs h
+  obtain ⟨t1, t2⟩ := net_text_ne ns ('X' :: '\'' :: (hs ++ ['\''])) hn.1 hn.2
+  have hstrip : stripNl (ns ++ ':' :: 'X' :: '\'' :: (hs ++ ['\''])) =
+      ns ++ ':' :: 'X' :: '\'' :: (hs ++ ['\'']) := by
+    apply stripNl_id
+    simp [noNl_cons, noNl_append, noNl_nil, hnl, noNl_of_allDigits ns hn.2]
+  have hbody : matchBody ('X' :: '\'' :: (hs ++ ['\''])) = none := by
+    simp [matchBody, digits, isDig_X]
+  have hcomb := matchCombined_net ns _ none hn.1 hn.2 hbody
+  have hdig := digits_append ns (':' :: 'X' :: '\'' :: (hs ++ ['\''])) hn.2
+    (by simp [noDigHead, isDig_colon])
+  have hXc : 'X' ≠ ':' := by decide
+  -- no digit string followed by `:X'hh…` is an ethernet address
+  have heth : matchEthernet (ns ++ ':' :: 'X' :: '\'' :: (hs ++ ['\''])) = none := by
+    obtain ⟨hne', hall⟩ := hn
+    match ns, hne', hall with
+    | [c1], _, _ => simp [matchEthernet, ethGroups, hXc]
+    | [c1, c2], _, _ =>
+      have := ethGroups_bad_head 4 'X' ('\'' :: (hs ++ ['\''])) hexVal_X
+      simp only [matchEthernet, List.cons_append, List.nil_append]
+      rw [ethGroups]
+      simp [this]
+    | c1 :: c2 :: c3 :: t, _, hall =>
+      have h3 : isDig c3 = true := by simp [allDigits] at hall; exact hall.2.2.1
+      have : c3 ≠ ':' := by intro e; subst e; simp [isDig_colon] at h3
+      simp [matchEthernet, ethGroups, this]
+  have hx : matchXHex (ns ++ ':' :: 'X' :: '\'' :: (hs ++ ['\''])) = none := by
+    obtain ⟨hne', hall⟩ := hn
+    cases ns with
+    | nil => exact absurd rfl hne'
+    | cons c t =>
+      have : c ≠ 'X' := by
+        intro e; subst e; exact absurd (head_isDig hall) (by simp [isDig_X])
+      simp [matchXHex, this]
+  have h1 : ¬ decVal ns ≥ 65535 := by omega
+  cases bs with
+  | nil => exact absurd rfl hne
+  | cons b0 bt =>
+    have hnx : matchNetXHex (ns ++ ':' :: 'X' :: '\'' :: (hs ++ ['\''])) =
+        some (ns, b0 :: bt) := by
+      cases ns with
+      | nil => exact absurd rfl hn.1
+      | cons c t =>
+        unfold matchNetXHex
+        simp only [hdig]
+        simp [matchXHex, hq]
+    simp only [parse, if_neg t1, if_neg t2, hstrip, hcomb, Option.map, heth, hx, hnx]
+    simp [h1, mkRemoteStation]
+
+example : parse "65534:X'0aFF'".toList = .ok ⟨.remoteStation, some 65534, some [10, 255], none⟩ := by
+  decide
+
+/-! ### dotted IPv4 with optional mask and port -/
+
+/-- value of an optional decimal group with its default -/
+def optVal (o : Option (List Char)) (dflt : Nat) : Nat :=
+  match o with
+  | none => dflt
+  | some ds => decVal ds
+
+theorem noNl_optSuffix (sep : Char) (o : Option (List Char)) (hs : sep ≠ '\n')
+    (h : optDigits o = true) : noNl (optSuffix sep o) = true := by
+  cases o with
+  | none => rfl
+  | some ds =>
+    simp [optDigits] at h
+    simp [optSuffix, noNl_cons, hs, noNl_of_allDigits ds h.2]
+
+theorem noNl_ipText (a b c d : List Char) (mask port : Option (List Char))
+    (ha : allDigits a = true) (hb : allDigits b = true) (hc : allDigits c = true)
+    (hd : allDigits d = true) (hm : optDigits mask = true) (hp : optDigits port = true) :
+    noNl (ipText a b c d mask port) = true := by
+  simp [ipText, noNl_append, noNl_cons, noNl_of_allDigits, ha, hb, hc, hd,
+    noNl_optSuffix '/' mask (by decide) hm, noNl_optSuffix ':' port (by decide) hp]
+
+/-- the IP helper fields the code computes, as the code computes them -/
+def ipInfoOf (a b c d : List Char) (ip n p : Nat) : IPInfo :=
+  { ip := ip, mask := maskOf n, host := some (hostOf ip (maskOf n)),
+    subnet := some (subnetOf ip (maskOf n)), port := p, tupHost := dotted4 a b c d,
+    bcastHost := ntoa (bcastOf ip (maskOf n)) }
+
+theorem interpBody_ip (a b c d : List Char) (mask port : Option (List Char))
+    (va vb vc vd : Nat) (pa : atonPart a = some va) (pb : atonPart b = some vb)
+    (pc : atonPart c = some vc) (pd : atonPart d = some vd)
+    (ra : va < 256) (rb : vb < 256) (rc : vc < 256) (rd : vd < 256)
+    (hmask : optVal mask 32 ≤ 32) (hport : optVal port 47808 ≤ 65535) :
+    interpBody (.ip a b c d mask port) =
+      .ok (some (be32 (va * 16777216 + vb * 65536 + vc * 256 + vd) ++ be16 (optVal port 47808)),
+           some (ipInfoOf a b c d (va * 16777216 + vb * 65536 + vc * 256 + vd)
+                  (optVal mask 32) (optVal port 47808))) := by
+  have e1 : decVal (port.getD ['4', '7', '8', '0', '8']) = optVal port 47808 := by
+    cases port with
+    | none => decide
+    | some ds => rfl
+  have e2 : decVal (mask.getD ['3', '2']) = optVal mask 32 := by
+    cases mask with
+    | none => decide
+    | some ds => rfl
+  have h1 : ¬ optVal port 47808 > 65535 := by omega
+  have h2 : ¬ optVal mask 32 > 32 := by omega
+  simp only [interpBody, ipFromStr, e1, e2, if_neg h1, if_neg h2, inetAton4, pa, pb, pc, pd]
+  simp [ra, rb, rc, rd, ipInfoOf]
+
+/-- dotted IPv4 `a.b.c.d[/mask][:port]`: any digit strings that `inet_aton`
+    reads as octets, mask ≤ 32, port ≤ 65535 -/
+theorem parse_fields_ip (a b c d : List Char) (mask port : Option (List Char))
+    (ha : a ≠ [] ∧ allDigits a = true) (hb : b ≠ [] ∧ allDigits b = true)
+    (hc : c ≠ [] ∧ allDigits c = true) (hd : d ≠ [] ∧ allDigits d = true)
+    (hm : optDigits mask = true) (hp : optDigits port = true)
+    (va vb vc vd : Nat) (pa : atonPart a = some va) (pb : atonPart b = some vb)
+    (pc : atonPart c = some vc) (pd : atonPart d = some vd)
+    (ra : va < 256) (rb : vb < 256) (rc : vc < 256) (rd : vd < 256)
+    (hmask : optVal mask 32 ≤ 32) (hport : optVal port 47808 ≤ 65535) :
+    parse (ipText a b c d mask port) =
+      .ok ⟨.localStation, none,
+           some (be32 (va * 16777216 + vb * 65536 + vc * 256 + vd) ++ be16 (optVal port 47808)),
+           some (ipInfoOf a b c d (va * 16777216 + vb * 65536 + vc * 256 + vd)
+                  (optVal mask 32) (optVal port 47808))⟩ := by
+  have hbody := matchBody_ip a b c d mask port ha hb hc hd hm hp
+  have hnl := noNl_ipText a b c d mask port ha.2 hb.2 hc.2 hd.2 hm hp
+  have hdig : digits (ipText a b c d mask port) = (a, '.' :: (b ++ '.' :: (c ++ '.' :: (d ++
+      (optSuffix '/' mask ++ optSuffix ':' port))))) :=
+    digits_append _ _ ha.2 (by simp [noDigHead, isDig_dot])
+  have hhead : ∀ r, ipText a b c d mask port ≠ '*' :: r := by
+    obtain ⟨hne, hall⟩ := ha
+    cases a with
+    | nil => exact absurd rfl hne
+    | cons x t =>
+      have := ne_star_of_isDig (head_isDig hall)
+      intro r; simp [ipText, this]
+  rw [parse_plain _ _ (hhead _) hnl hbody (fun r => hhead _) (by simp [hdig])]
+  simp only [interp, interpPfx,
+    interpBody_ip a b c d mask port va vb vc vd pa pb pc pd ra rb rc rd hmask hport]
+
+example : parse "10.1.2.3/24:47809".toList =
+    .ok ⟨.localStation, none, some [10, 1, 2, 3, 0xBA, 0xC1],
+         some { ip := 167838211, mask := 4294967040, host := some 3, subnet := some 167838208,
+                port := 47809, tupHost := "10.1.2.3".toList, bcastHost := "10.1.2.255".toList }⟩ := by
+  decide +kernel
+
+/-- `net:a.b.c.d[/mask][:port]` -/
+theorem parse_fields_net_ip (ns a b c d : List Char) (mask port : Option (List Char))
+    (hn : ns ≠ [] ∧ allDigits ns = true) (hnr : decVal ns ≤ 65534)
+    (ha : a ≠ [] ∧ allDigits a = true) (hb : b ≠ [] ∧ allDigits b = true)
+    (hc : c ≠ [] ∧ allDigits c = true) (hd : d ≠ [] ∧ allDigits d = true)
+    (hm : optDigits mask = true) (hp : optDigits port = true)
+    (va vb vc vd : Nat) (pa : atonPart a = some va) (pb : atonPart b = some vb)
+    (pc : atonPart c = some vc) (pd : atonPart d = some vd)
+    (ra : va < 256) (rb : vb < 256) (rc : vc < 256) (rd : vd < 256)
+    (hmask : optVal mask 32 ≤ 32) (hport : optVal port 47808 ≤ 65535) :
+    parse (ns ++ ':' :: ipText a b c d mask port) =
+      .ok ⟨.remoteStation, some (decVal ns),
+           some (be32 (va * 16777216 + vb * 65536 + vc * 256 + vd) ++ be16 (optVal port 47808)),
+           some (ipInfoOf a b c d (va * 16777216 + vb * 65536 + vc * 256 + vd)
+                  (optVal mask 32) (optVal port 47808))⟩ := by
+  have hbody := matchBody_ip a b c d mask port ha hb hc hd hm hp
+  have hnl := noNl_ipText a b c d mask port ha.2 hb.2 hc.2 hd.2 hm hp
+  rw [parse_net ns _ _ hn.1 hn.2 hnl hbody]
+  have h1 : ¬ decVal ns ≥ 65535 := by omega
+  simp only [interp, interpPfx, if_neg h1,
+    interpBody_ip a b c d mask port va vb vc vd pa pb pc pd ra rb rc rd hmask hport]
+
+/-- a digit string without a leading zero (or "0" itself) is read in decimal -/
+theorem atonPart_decimal (c : Char) (r : List Char) (h : c ≠ '0' ∨ r = []) :
+    atonPart (c :: r) = some (decVal (c :: r)) := by
+  unfold atonPart
+  by_cases hc : c = '0'
+  · have hr : r = [] := by rcases h with h | h; exact absurd hc h; exact h
+    subst hc; subst hr; decide
+  · simp [hc]
+
+/-- the IP helper values are what the notation denotes: for every 32-bit
+    address and each of the 33 mask lengths the code's `&`, `|`, `~`, `<<`
+    expressions equal netmask / network / host part / directed broadcast -/
+theorem ip_arith (ip n : Nat) (hip : ip < 2 ^ 32) (hn : n ≤ 32) :
+    maskOf n = 2 ^ 32 - 2 ^ (32 - n) ∧
+    subnetOf ip (maskOf n) = ip - ip % 2 ^ (32 - n) ∧
+    hostOf ip (maskOf n) = ip % 2 ^ (32 - n) ∧
+    bcastOf ip (maskOf n) = ip - ip % 2 ^ (32 - n) + (2 ^ (32 - n) - 1) :=
+  ⟨maskOf_eq n hn, subnetOf_eq ip n hip hn, hostOf_eq ip n hn, bcastOf_eq ip n hip hn⟩
+
+/-- … and they fit together: subnet + host = ip, host below the block size,
+    subnet aligned, broadcast = last address of the block, all within 32 bits -/
+theorem ip_values (ip n : Nat) (hip : ip < 2 ^ 32) (hn : n ≤ 32) :
+    subnetOf ip (maskOf n) + hostOf ip (maskOf n) = ip ∧
+    hostOf ip (maskOf n) < 2 ^ (32 - n) ∧
+    subnetOf ip (maskOf n) % 2 ^ (32 - n) = 0 ∧
+    bcastOf ip (maskOf n) = subnetOf ip (maskOf n) + (2 ^ (32 - n) - 1) ∧
+    subnetOf ip (maskOf n) ≤ ip ∧ ip ≤ bcastOf ip (maskOf n) ∧ bcastOf ip (maskOf n) < 2 ^ 32 :=
+  ip_split ip n hip hn
+
+example : maskOf 24 = 0xFFFFFF00 ∧ subnetOf 0xC0A80137 (maskOf 24) = 0xC0A80100 ∧
+    hostOf 0xC0A80137 (maskOf 24) = 0x37 ∧ bcastOf 0xC0A80137 (maskOf 24) = 0xC0A801FF := by decide
+
+/-- the octets of a dotted quad are below 2^32 -/
+theorem quad_lt (va vb vc vd : Nat) (ra : va < 256) (rb : vb < 256) (rc : vc < 256) (rd : vd < 256) :
+    va * 16777216 + vb * 65536 + vc * 256 + vd < 2 ^ 32 := by
+  have : (2 : Nat) ^ 32 = 4294967296 := by decide
+  omega
 
 end BacVerif.C18
